@@ -40,7 +40,9 @@ ASSUMPTIONS = ['errors that depend on document-wide tables (ID/IDREF, key/keyref
                'out when a part or a depth-limited run is compared with the whole',
                'namespace-declaration pseudo-attributes at the root of a separately decoded part follow the documented '
                '"single decoding process" rule (only for global elements, then all namespaces in scope) and are not compared',
-               'the claim about find(path) is made for valid documents; invalid ones are explored too (same rule)']
+               'the claim about find(path) is made for valid documents; invalid ones are explored too (same rule)',
+               'findings repaired in /repo have no rule (C20-F2 d54abee; of C20-F3 the case "prefix declared on the selected '
+               'element itself", c3a1309): a recurrence is a violation']
 
 FINDINGS_FILE = VERIF / 'notes' / 'findings' / 'C20.json'
 XSI_TYPE = '{%s}type' % L.XSI
